@@ -319,3 +319,25 @@ def run(index, rep, tier):
     with rep.section("R02.8"):
         rep.rule("R02.8", "a label written is found again under its own name: the readers look taxa up through the namespace, whose cached folded label, folded query and caseless maps use one folding method and are refreshed on relabelling (C10 R10.9)")
         rep.floor("R02.8", "borrowed obligations", 5, borrow(index, rep, "C10", {"R10.9"}, "R02.8"))
+
+    # ---- R02.9 NeXML attribute values are XML, not JSON
+    with rep.section("R02.9"):
+        rep.rule("R02.9", "NeXML attribute values are escaped as XML: the function every label / annotation value goes through returns an XML-quoted attribute value (xml.sax.saxutils.quoteattr or escape), not a JSON or Python string literal, whose escapes (\\t, \\u00e9, \\\\) an XML parser reads literally and whose &, <, \" break the document")
+        mod = index.module("dendropy.dataio.nexmlwriter")
+        pa = index.function("dendropy.dataio.nexmlwriter._protect_attr")
+        users = [c for f in index.functions_in_module("dendropy.dataio.nexmlwriter") for c in calls_in(f.node, nested=True) if call_name(c) == "_protect_attr"]
+        rets = [r for r in walk_no_nested(pa.node) if isinstance(r, ast.Return) and r.value is not None]
+        if not rets:
+            raise AnalysisError("R02.9: _protect_attr returns nothing")
+        XML_ESC = ("quoteattr", "escape")
+        for r in rets:
+            names = {call_name(c) for c in ast.walk(r.value) if isinstance(c, ast.Call)}
+            for nm_ in list(names):
+                # a local helper: look one level down
+                h = index.functions.get("dendropy.dataio.nexmlwriter." + nm_)
+                if h is not None:
+                    names |= {call_name(c) for c in calls_in(h.node)}
+            ok = bool(names & set(XML_ESC)) and not (names & {"dumps", "repr"})
+            rep.check(ok, "R02.9", pa.qualname, "attribute values escaped with %s" % sorted(names - {"_safe_str", "str"}), fn_where(pa, r), "_protect_attr escapes with an XML escaper",
+                      "nexmlwriter._protect_attr builds attribute values with %s: that is JSON / Python quoting - `&`, `<` and `\"` inside a label make the document ill-formed, and a backslash, a tab or a non-ASCII letter is written as a backslash escape that the XML reader hands back literally (`caf\\u00e9`), so such labels do not survive the NeXML round trip" % sorted(names - {"_safe_str", "str"}))
+        rep.floor("R02.9", "attribute values routed through _protect_attr", 6, len(users))
